@@ -10,6 +10,7 @@
  
 #include "threadsafe_memory_pool.h"
 #include <stdlib.h>
+#include <stdint.h>
 #include "muggle/c/base/err.h"
 #include "muggle/c/base/utils.h"
 #include "muggle/c/base/atomic.h"
@@ -32,13 +33,17 @@ int muggle_ts_memory_pool_init(muggle_ts_memory_pool_t *pool, muggle_sync_t capa
 		return MUGGLE_ERR_INVALID_PARAM;
 	}
 
-	muggle_sync_t block_size =
-		(muggle_sync_t)sizeof(muggle_ts_memory_pool_head_t) + data_size;
-	block_size = MUGGLE_ALIGN_TRUE_SHARING(block_size);
-	if (block_size <= 0)
+	// block size and the size of the data area are computed in 64 bits: every
+	// block offset in this file is a product of two muggle_sync_t, so a data
+	// area that does not fit muggle_sync_t is refused instead of wrapping
+	uint64_t block_size64 =
+		(uint64_t)sizeof(muggle_ts_memory_pool_head_t) + data_size;
+	block_size64 = MUGGLE_ALIGN_TRUE_SHARING(block_size64);
+	if (block_size64 > (uint64_t)UINT32_MAX / capacity)
 	{
 		return MUGGLE_ERR_INVALID_PARAM;
 	}
+	muggle_sync_t block_size = (muggle_sync_t)block_size64;
 
 	pool->capacity = capacity;
 	pool->block_size = block_size;
